@@ -17,6 +17,7 @@ type decision struct {
 	forced     bool
 	unchecked  bool // feasibility of alternatives > 0 not established at discovery
 	payload    uint64
+	prefix     bool // cell prefix supplied by the coordinator (arity unknown)
 }
 
 // pathEnd terminates the current path (engine-level; invisible to the target).
@@ -31,6 +32,8 @@ type Violation struct {
 	Model     map[string]int64  `json:"model"`
 	Chooses   map[string]int    `json:"chooses"`
 	Notes     map[string]string `json:"notes,omitempty"`
+	Params    map[string]int    `json:"params,omitempty"`
+	Labels    map[string]string `json:"labels,omitempty"`
 	Decisions []int             `json:"decisions"`
 	Outcome   string            `json:"outcome,omitempty"`
 	Stack     string            `json:"stack,omitempty"`
@@ -56,6 +59,9 @@ type pathState struct {
 	knownHit  map[string]bool
 	labels    map[string]string
 	noteBytes map[string][]value
+	lastModel, pendingModel map[string]uint64
+	modelMemo map[int]uint64
+	pendingFor *Term
 	kfCandidates []*Finding
 }
 
@@ -73,6 +79,15 @@ func (in *Interp) newPath(decs []decision, checkAt int) *pathState {
 		labels:   map[string]string{},
 		noteBytes: map[string][]value{},
 	}
+}
+
+// allVars lists every variable of the path (nondet and digit variables).
+func (p *pathState) allVars() []*Term {
+	vs := append([]*Term(nil), p.vars...)
+	for _, a := range p.atoms {
+		vs = append(vs, a.digits...)
+	}
+	return vs
 }
 
 // markKnown records that t has truth value b on this path.
@@ -131,10 +146,30 @@ func (in *Interp) assume(c *Term) {
 		return
 	}
 	p := in.path
+	// keep or replace the cached model
+	if p.pendingModel != nil && p.pendingFor == c {
+		p.lastModel, p.modelMemo = p.pendingModel, map[int]uint64{}
+	} else if p.lastModel != nil {
+		if c.Eval(p.lastModel, p.modelMemo) == 0 {
+			p.lastModel = nil
+		}
+	}
+	p.pendingModel, p.pendingFor = nil, nil
 	in.linkAtoms(c)
 	p.pc = append(p.pc, c)
 	p.markKnown(c, true)
 	in.sv.Assert(c)
+}
+
+// evalUnderLastModel evaluates c under the most recent model of the path
+// condition, if one is cached and still satisfies everything assumed since.
+func (in *Interp) evalUnderLastModel(c *Term) (bool, bool) {
+	p := in.path
+	if p.lastModel == nil {
+		return false, false
+	}
+	v := c.Eval(p.lastModel, p.modelMemo)
+	return v != 0, true
 }
 
 func (in *Interp) checkWith(c *Term, timeoutMs int) Result {
@@ -143,6 +178,10 @@ func (in *Interp) checkWith(c *Term, timeoutMs int) Result {
 	in.sv.Assert(c)
 	t0 := time.Now()
 	r := in.sv.Check(timeoutMs)
+	if r == Sat && in.path != nil {
+		in.path.pendingModel = in.sv.Model(in.path.allVars())
+		in.path.pendingFor = c
+	}
 	in.Stats.SolverNs += time.Since(t0).Nanoseconds()
 	in.sv.Pop()
 	in.Stats.SolverQueries++
@@ -197,6 +236,34 @@ func (fr *frame) branch(c *Term) bool {
 			in.checkFlipped()
 		}
 		return taken
+	}
+	// model reuse: if the last model of the path condition already decides
+	// one side, that side is feasible without asking
+	if mv, ok := in.evalUnderLastModel(c); ok {
+		other := nc
+		if !mv {
+			other = c
+		}
+		r := in.checkWith(other, in.cfg.FeasTimeoutMs)
+		if r == Unknown {
+			inconclusive("solver unknown on branch feasibility at %s", fr.where())
+		}
+		if r == Unsat {
+			alt := 0
+			if !mv {
+				alt = 1
+			}
+			in.record(decision{alt: alt, nalts: 2, forced: true})
+			if mv {
+				in.assume(c)
+			} else {
+				in.assume(nc)
+			}
+			return mv
+		}
+		in.record(decision{alt: 0, nalts: 2})
+		in.assume(c)
+		return true
 	}
 	rT := in.checkWith(c, in.cfg.FeasTimeoutMs)
 	if rT == Unknown {
@@ -254,6 +321,12 @@ func (in *Interp) choose(name string, n int) int {
 	var alt int
 	if p.pos < len(p.decs) {
 		d := &p.decs[p.pos]
+		if d.prefix {
+			d.nalts = n
+			if d.alt >= n {
+				panic(pathEnd{kind: "assume", msg: "prefix out of range"})
+			}
+		}
 		if d.nalts != n {
 			inconclusive("non-deterministic replay: Choose(%s) arity %d vs recorded %d", name, n, d.nalts)
 		}
@@ -481,12 +554,16 @@ func (in *Interp) fullModel() (map[string]int64, bool) {
 
 func (in *Interp) mkViolation(fr *frame, id, msg string, model map[string]int64) *Violation {
 	p := in.path
-	v := &Violation{ID: id, Msg: msg, Model: model, Chooses: map[string]int{}, Notes: map[string]string{}}
+	v := &Violation{ID: id, Msg: msg, Model: model, Chooses: map[string]int{}, Notes: map[string]string{}, Params: in.cfg.Params}
 	for k, x := range p.chooses {
 		v.Chooses[k] = x
 	}
 	for k, x := range p.notes {
 		v.Notes[k] = x
+	}
+	v.Labels = map[string]string{}
+	for k, x := range p.labels {
+		v.Labels[k] = x
 	}
 	for _, d := range p.decs[:p.pos] {
 		v.Decisions = append(v.Decisions, d.alt)
